@@ -24,6 +24,24 @@ build_cli() {
   fi
 }
 
+build_instr() {
+  # instrumented sources + overlay (repo untouched), then the checker linked against them
+  go build -o .work/vinstr ./cmd/vinstr 2> .work/build-instr.log && ./.work/vinstr > .work/vinstr.out 2>> .work/build-instr.log &&
+  go build -tags verif_instr -overlay .work/overlay.json -o .work/vcheck-instr ./cmd/vcheck 2>> .work/build-instr.log
+  rc=$?
+  if [ $rc -ne 0 ]; then
+    echo "BUILD-ERROR: the instrumented checker does not build from /repo's working tree" >&2
+    cat .work/build-instr.log >&2
+    exit 2
+  fi
+  # self-test: the repository's own tests must pass on the instrumented tree
+  if ! (cd /repo && go test -vet=off -count=1 -overlay /verif/.work/overlay.json ./... > /verif/.work/instr-selftest.log 2>&1); then
+    echo "BUILD-ERROR: the repository's tests do not pass on the instrumented tree (or on the tree itself)" >&2
+    grep -v '^ok' .work/instr-selftest.log | head -30 >&2
+    exit 2
+  fi
+}
+
 build() {
   go build -o .work/vcheck ./cmd/vcheck 2> .work/build.log
   rc=$?
@@ -38,6 +56,7 @@ case "${1:-}" in
   setup)
     build
     build_cli
+    build_instr
     echo "setup ok"
     ;;
   replay)
@@ -48,6 +67,11 @@ case "${1:-}" in
     build
     case "$1" in C06|C07|C15) build_cli ;; esac
     tier="${2:-${VERIF_TIER:-quick}}"
+    case "$1" in
+      C06|C19)
+        build_instr
+        exec ./.work/vcheck-instr -prop "$1" -tier "$tier" ;;
+    esac
     exec ./.work/vcheck -prop "$1" -tier "$tier"
     ;;
   *)
